@@ -1,6 +1,7 @@
 #![recursion_limit = "512"]
 //! raft-log deterministic simulator: `sim check <id> quick|thorough`, `sim replay <file>`,
 //! `sim work ...` (internal), `sim selfcheck`.
+mod analyse;
 mod check;
 mod core;
 mod crash;
@@ -34,6 +35,7 @@ fn main() {
             check::work(&a(2), a(3) == "thorough", a(4).parse().unwrap(), a(5).parse().unwrap(), a(6).parse().unwrap(), a(7).parse().unwrap(), a(8).parse().unwrap(), &a(9));
             0
         }
+        "trace" => check::trace_cmd(&args.get(2).cloned().unwrap_or_default()),
         "replay" => check::replay_cmd(&args.get(2).cloned().unwrap_or_default()),
         _ => {
             eprintln!("usage: sim check <C01..C16> [quick|thorough] | sim replay <file>");
